@@ -79,12 +79,13 @@ func (ss *seedSet) add(name, dec string, data []byte, ntab int) {
 		w, _ := GidWords(data)
 		ngid = len(w)
 	}
+	cw := CountWords(dec, data)
 	ndict := 0
 	if dec == "cff" {
 		ndict = len(DictSlots(data))
 	}
 	ss.list = append(ss.list, &Seed{ID: len(ss.list) + 1, Name: name, Dec: dec, Len: len(data), MLen: mlen,
-		NTab: ntab, NGid: ngid, NDict: ndict, Data: data, Formats: FormatsOf(dec, data)})
+		NTab: ntab, NGid: ngid, NDict: ndict, NCnt: len(cw), NCPair: len(CountPairs(cw)), Data: data, Formats: FormatsOf(dec, data)})
 }
 
 // addFont adds a whole font file, its directory and every table that has a stand-alone decoder.
